@@ -72,5 +72,6 @@ theorem construct_eq (c : Cache.Ctor) (now : Int) : CacheOf.construct (K := K) (
         Gen.DefaultConfigOf_, Gen.DefaultConfig_] <;> rfl
   | newDefault d i cb =>
     simp only [CacheOf.construct, Cache.construct, CacheOf.newXsyncMapOf, Cache.newXsyncMap, configDefaultOf_eq]
+    rfl
 
 end Proofs.Twin
